@@ -344,7 +344,14 @@ func checkVolumeListing(vols []ledger.VolumesWithBalanceByAssetByAccount, want V
 		}
 		w := want[v.Account][v.Asset]
 		if w == nil {
-			rep.Add("vol:unexpected:"+tag, "volumes listing has %s (%s,%s), reference has nothing", key, v.Input, v.Output)
+			sig := "vol:unexpected:" + tag
+			if v.Input != nil && v.Output != nil && v.Input.Sign() == 0 && v.Output.Sign() == 0 {
+				// a row without any volume (e.g. the zero row a funds check materialises for a
+				// source it consulted and did not use): same prefix, so every check that
+				// demands "no unexpected row" still sees it, but told apart structurally
+				sig += ":zero-row"
+			}
+			rep.Add(sig, "volumes listing has %s (%s,%s), reference has nothing", key, v.Input, v.Output)
 			continue
 		}
 		if !w.Eq(v.Input, v.Output) {
